@@ -240,13 +240,18 @@ def policy_network_keys(I, rep, U):
   obs = {'state': symarr('os', (3,)), 'proprio': symarr('op', (3,))}
   stats = Struct('NestedMeanStd', {'mean': {'state': symarr('ms', (3,)), 'proprio': symarr('mp', (3,))},
                                    'std': {'state': symarr('ss', (3,)), 'proprio': symarr('sp', (3,))}}, home=RS)
-  for key in ('proprio', 'state'):
-    env = {'v': {'preprocess_observations_fn': fn(RS, 'normalize'), 'policy_module': module, 'obs_key': key}, 'p': None}
-    got = I.apply(Closure(apply_node, env, N, 'apply'), [stats, polp, obs], {})
-    want = elemwise(lambda v: uf('mlp', polp, v), (obs[key] - stats.f['mean'][key]) / stats.f['std'][key])
-    rep.check(same(got, want), 'R20.6', 'dict observations, policy key %r: the network sees (obs[key] - mean[key]) / std[key]' % key,
-              lambda: 'the policy input is not its own entry normalised with its own statistics: ' + diff_report(got, want),
-              where=f.where(apply_node), construct='running_statistics.normalize with nested mean / std; obs keys state, proprio')
+  # the SUPPLIED statistics may be a plain NestedMeanStd or a full running state (count, summed variance) -- whatever its
+  # count says, the observation is normalised with the mean / std it carries
+  running = Struct('RunningStatisticsState', dict(stats.f, count=sym('cnt'),
+                                                  summed_variance={'state': symarr('vs', (3,)), 'proprio': symarr('vp', (3,))}), home=RS)
+  for carrier, st_ in (('NestedMeanStd', stats), ('RunningStatisticsState with a symbolic count', running)):
+    for key in ('proprio', 'state'):
+      env = {'v': {'preprocess_observations_fn': fn(RS, 'normalize'), 'policy_module': module, 'obs_key': key}, 'p': None}
+      got = I.apply(Closure(apply_node, env, N, 'apply'), [st_, polp, obs], {})
+      want = elemwise(lambda v: uf('mlp', polp, v), (obs[key] - stats.f['mean'][key]) / stats.f['std'][key])
+      rep.check(same(got, want), 'R20.6', 'dict observations, policy key %r, %s: the network sees (obs[key] - mean[key]) / std[key]' % (key, carrier),
+                lambda: 'the policy input is not its own entry normalised with its own statistics: ' + diff_report(got, want),
+                where=f.where(apply_node), construct='running_statistics.normalize with nested mean / std; obs keys state, proprio')
 
 
 class _OnlyFailures:
